@@ -710,7 +710,10 @@ static void record_case(Builder& B, bool oas, const std::string& gid, const std:
     cell.robustpath_array.count = 0;
     lib.cell_array.count = 0;
     em.K(oas ? "oas" : "gds", gid);
-    if (werr != ErrorCode::NoError) {
+    // IntersectionNotFound is advisory: the junction search between two sections stopped a few tolerances short (the same code
+    // is tolerated from to_polygons); the record is written all the same and is judged below like any other
+    if (werr == ErrorCode::IntersectionNotFound) em.T(oas ? "oas-write-reports-intersection-not-found" : "gds-write-reports-intersection-not-found");
+    else if (werr != ErrorCode::NoError) {
         em.I("write-error");
         em.P("FAIL robustpath-record-write write returned an error code");
         unlink(fname);
